@@ -132,6 +132,16 @@ class Trace:
             r[min(w.lf, n - 1)].append(w.byte)
         return [bytes(x) for x in r]
 
+    def callbacks_by_line(self, nlines):
+        """callbacks() split by the number of LFs consumed when the callback ran (index 0 = before any LF)"""
+        r = [[] for _ in range(nlines + 1)]
+        for k, e in self.events:
+            if k == "H":
+                r[min(e.lf, nlines)].append(("H", e.fsm, e.ci, e.kind, e.seen, e.size, e.args, e.max, e.flags, e.after, e.code))
+            elif k == "V":
+                r[min(e.lf, nlines)].append(("V", e.ci, e.vi, e.kind, e.size, e.ret))
+        return r
+
     def callbacks(self, strip_step=True):
         """handler and variable callbacks in order, without step numbers (for differentials)"""
         r = []
